@@ -42,6 +42,7 @@ TABLE = [
  ('C06-oversized-allocation-subscriber-chain', 'fixed', '0000000', 'subscriber chain allocates hundreds of megabytes for a few hundred input bytes (batch count trusted)'),
  ('C06-process-abort-wire-hostile', 'fixed', '0000000', 'allocation of more than 3 GiB requested while decoding a small input (batch count / bincode length prefix trusted): process aborts'),
  ('C06-decoder-panic-bincodecodec', 'fixed', '1111111', 'BincodeCodec::decode panics with capacity overflow on an adversarial length prefix (deserialize_from without limit)'),
+ ('C06-subscriber-recursion-stack-overflow', 'fixed', 'ccccccc', 'Subscriber::poll_next recurses once per batch frame: 40000 empty batch frames (680 kB) from a publisher overflow the 2 MiB stack of the task polling the subscriber and abort the process'),
  ('C06-brotli-large-window-allocation', 'fixed', 'bbbbbbb', 'BrotliDecomp::decompress requests a 1 GiB ring buffer for a 16-byte payload whose first byte announces the Large Window Brotli extension'),
  ('C06-oversized-allocation-bincodecodec', 'fixed', '1111111', 'BincodeCodec::decode requests 2 GiB for 126 input bytes (length prefix trusted by deserialize_from)'),
 ]
@@ -52,7 +53,7 @@ def main():
         for l in log:
             if l.split(' ',1)[1].startswith(prefix): return l.split()[0]
         return None
-    subst = {'0000000': sha('fix: decode_message_batch'), '1111111': sha('fix: BincodeCodec::decode'), '2222222': sha('fix: Publisher::finish flushes'), '3333333': sha('fix: Subscriber yields the messages of a batch'), '4444444': sha('fix: a Replier gets a fresh retry budget'), '5555555': sha('fix: Requestor reads replies from the new stream'), '6666666': sha('fix: backoff delays saturate'), '7777777': sha('fix: TopicName::try_from no longer panics'), '8888888': sha('fix: a registration no longer holds the global topic lock'), '9999999': sha('fix: a registration whose role does not match'), 'aaaaaaa': sha('fix: a batch is framed before it can outgrow'), 'bbbbbbb': sha('fix: brotli decompression refuses large-window')}
+    subst = {'0000000': sha('fix: decode_message_batch'), '1111111': sha('fix: BincodeCodec::decode'), '2222222': sha('fix: Publisher::finish flushes'), '3333333': sha('fix: Subscriber yields the messages of a batch'), '4444444': sha('fix: a Replier gets a fresh retry budget'), '5555555': sha('fix: Requestor reads replies from the new stream'), '6666666': sha('fix: backoff delays saturate'), '7777777': sha('fix: TopicName::try_from no longer panics'), '8888888': sha('fix: a registration no longer holds the global topic lock'), '9999999': sha('fix: a registration whose role does not match'), 'aaaaaaa': sha('fix: a batch is framed before it can outgrow'), 'bbbbbbb': sha('fix: brotli decompression refuses large-window'), 'ccccccc': sha('fix: Subscriber::poll_next loops instead of recursing')}
     out = []
     for f in sorted(glob.glob(os.path.join(HERE,'findings','*.json'))):
         b = os.path.basename(f)[:-5]
